@@ -159,3 +159,20 @@ check("C09", "exploration",
            "placement of composite types; a decoder may accept a string only if re-encoding the value reproduces it, and the number "
            "of accepted strings must equal the number of values. Every transpose implementation is checked bit-for-bit on a basis.",
       note="Types above 3 bytes are not enumerable; their non-canonical regions are probed at the boundaries only.")
+
+check("C10", "fault_enumeration",
+      "round trip over a grid of both report kinds (site-domain lengths 0..255, boundary timestamps / privacy parameters, key ids); "
+      "for five representative encrypted records: every single-bit flip at every byte offset, every truncation length, all 256 "
+      "event-type bytes, all 256 key ids against a 2-key and a 1-key registry, a different key pair; parser+decryptor on all byte "
+      "strings of length 0,1,2; LengthDelimitedStream<EncryptedHybridReport> on every 2-byte length prefix (0..600 + boundaries; "
+      "all 65536 in thorough) with an absent, short and exact body. distinct_nontrivial = distinct tampered records / inputs executed.",
+      [{"name": "reports", "config": "A", "test": "verif::c10::run",
+        "require": {"any": {"tamper_rejected": 3000, "roundtrip_reports": 100}}}],
+      assumptions=["HPKE (hpke crate, X25519-HKDF-SHA256 / AES-128-GCM) is executed, not explored; an accepted forgery has negligible probability"],
+      exhaustive=True, engine="E3 fault + E5 domain",
+      technique="exhaustive single-fault enumeration (every bit, every truncation, every type/key byte) on real encrypted records; "
+                "exhaustive enumeration of all short inputs to the parser",
+      text="Every single-bit corruption and truncation of representative encrypted reports is fed to the real parser and decryptor: "
+           "each must produce an error or exactly the original report, never a different report and never a panic; all inputs of "
+           "length <= 2 and all length prefixes are shown not to crash the parser.",
+      note="One fault per record; five representative records; fixed key material from VERIF_SEED.")
